@@ -330,3 +330,49 @@ def check_ff(facts, rep):
                             rep.violation('E1.FF-constructor', inst,
                                           '%s builds FF(%s): the representative is not reduced by rem_euclid' % (b.defp, sk(v)), where=b.where())
     rep.floor('FF constructor sites', n, 3)
+
+
+def check_mul_cancels_first(facts, rep):
+    """R5 (C14, "values near the machine limits where the result is still representable"): Ratio *= cancels before it
+    multiplies. On every path of MulAssign<&Ratio>, a product written to numer / denom is final: the path makes no
+    reduce() call and no division of that component after it, so the only products ever formed are the components of the
+    result and `*` cannot overflow when the result is representable (the workspace builds with overflow checks: an
+    intermediate overflow is a panic). Multiplying the raw numerators / denominators and reducing afterwards gives the same
+    value whenever nothing overflows - which is all the unit tests exercise."""
+    import re
+    from symex import SymEx, show, show_lv
+    fn = [b for k, b in facts.bodies.items() if k.endswith('mul_assign') and 'as std::ops::MulAssign<&types::ratio::Ratio<T>>>' in k and k.startswith('yui::<types::ratio::Ratio<T> ')]
+    if len(fn) != 1:
+        rep.indet('E1.R5: Ratio MulAssign<&Ratio> not found (%d)' % len(fn))
+        return
+    b = fn[0]
+    rep.saw(b)
+
+    def dk(t):
+        return re.sub(r'#\d+\.\d+', '', show(t, -1000))
+    n = 0
+    probs = []
+    for p in SymEx(b, max_paths=5000).run():
+        if p.end != 'return':
+            continue
+        n += 1
+        multiplied = set()
+        for e in p.events:
+            if e.kind == 'write' and e.lv:
+                comp = show_lv(e.lv).split('.')[-1]
+                if comp not in ('numer', 'denom'):
+                    continue
+                t = dk(e.term)
+                if t.startswith('mul('):
+                    multiplied.add(comp)
+                elif t.startswith(('div(', 'rem(')) and comp in multiplied:
+                    probs.append('%s is divided after it was multiplied' % comp)
+            if e.kind == 'call' and e.name.split('::')[-1] in ('reduce', 'reduced', 'new') and multiplied and 'ratio' in e.name.lower():
+                probs.append('reduce() runs after %s was multiplied: the raw product is an intermediate that can overflow although the result is representable' % ' and '.join(sorted(multiplied)))
+    inst = 'Ratio *=|products are final (cross-cancel first)'
+    if n < 4:
+        rep.indet('E1.R5: Ratio *= has %d return paths' % n)
+    elif probs:
+        rep.violation('E1.R5-cancel-before-multiply', inst, 'Ratio::mul_assign: ' + '; '.join(sorted(set(probs))), where=b.where())
+    else:
+        rep.ok('E1.R5-cancel-before-multiply', inst, '%d paths: no reduce / division after a product' % n)
